@@ -106,12 +106,10 @@ theorem tie_kotlin_alias (c : Kotlin.Cfg) (a : RustTypeAlias) (d : Kotlin.KtDecl
     (h : Kotlin.aliasFacts c a = .ok d) : ktName d = defName (.kotlin c) (.alias a) := by
   unfold Kotlin.aliasFacts at h
   split at h
-  · rename_i hi
-    obtain ⟨p, _, h⟩ := bindOk h
-    cases h; simp [ktName, defName, hi]
-  · rename_i hi
-    obtain ⟨ty, _, h⟩ := bindOk h
-    cases h; simp [ktName, defName, hi]
+  · obtain ⟨p, _, h⟩ := bindOk h
+    cases h; simp [ktName, defName, itemId]
+  · obtain ⟨ty, _, h⟩ := bindOk h
+    cases h; simp [ktName, defName, itemId]
 
 theorem kotlin_structs_names (c : Kotlin.Cfg) : ∀ (ss : List RustStruct) (ds : List Kotlin.KtDecl),
     Kotlin.structsFacts c ss = .ok ds → ds.map ktName = ss.map fun s => c.pfx ++ s.id.renamed
@@ -164,7 +162,7 @@ theorem tie_kotlin_case (c : Kotlin.Cfg) (e : RustEnum) (kc : Str × Str) (hk : 
     cases h
     refine ⟨by simp [parentRefs, hk], fun id cs' fs' hv => ?_⟩
     cases hv
-    exact ⟨(_, _), rfl, by simp [innerRefs, innerSuffix]⟩
+    exact ⟨(_, _), rfl, by simp [innerRefs, innerSuffix, List.append_assoc]⟩
 
 /-! ## Scala -/
 
@@ -203,9 +201,9 @@ theorem tie_scala_case (c : Scala.Cfg) (e : RustEnum) (v : RustEnumVariant) (k :
     (h : Scala.caseFacts c e v = .ok k) :
     parentRefs (.scala c) e = [⟨k.parent, .parent e.id.original, false⟩] ∧
     ∀ kc, e.keys = some kc → ∀ id cs fs, v = .anonymousStruct id cs fs →
-      ∃ g, k.content = some (e.genericTypes, kc.2, (e.id.original ++ id.original ++ innerSuffix) ++ g) ∧
+      ∃ g, k.content = some (e.genericTypes, kc.2, (e.id.renamed ++ id.original ++ innerSuffix) ++ g) ∧
         innerRefs (.scala c) e id.original =
-          [⟨e.id.original ++ id.original ++ innerSuffix, .inner e.id.original id.original, false⟩] := by
+          [⟨e.id.renamed ++ id.original ++ innerSuffix, .inner e.id.original id.original, false⟩] := by
   unfold Scala.caseFacts at h
   cases hk : e.keys with
   | none =>
